@@ -113,7 +113,7 @@ Definition reconnected (l : link) (now : Z) : link :=
 Definition reg3_link (l : link) (now : Z) : link :=
   let r := l_rc l in
   LK true (Some now) (l_to l) (RC (r_last r) 0 (if r_est r =? 0 then now else r_est r) (r_grace r))
-     (PWarm 0 now) (l_win l) 0 (l_gen l) (l_io l) (l_bind l) (l_sock l) (l_pen l).
+     (PWarm 0 now) WINDOW_DEFAULT 0 (l_gen l) (l_io l) (l_bind l) (l_sock l) (l_pen l).
 
 Definition regerr_link (l : link) : link :=
   LK false None (l_to l) (l_rc l) (l_ph l) (l_win l) (l_inf l) (l_gen l) (l_io l) (l_bind l) (l_sock l) (l_pen l).
